@@ -53,17 +53,17 @@ theorem aliasN_live (p : List Seg) : ∀ (n : Node) (v : Val),
     unfold aliasN
     by_cases hnil : (n.ptr && v.isNilPtr) = true
     · simp [hnil] at h
-    · simp only [hnil, Bool.false_eq_true, if_false] at h ⊢
+    · simp only [hnil, Bool.false_eq_true, if_false]
+      have hl : (if n.ptr = true then true else true) = true := by cases n.ptr <;> rfl
       cases n with
       | basic i => simp
       | slice i e =>
-        simp only [] at h ⊢
+        simp only []
         by_cases hb : (i.typn == "[]byte") = true
         · simp [hb]
-        · simp only [hb, Bool.false_eq_true, if_false] at h
-          cases e <;> simp at h
-      | map i k mv => simp at h
-      | struct i chld => simp at h
+        · simp only [hb, Bool.false_eq_true, if_false]; rw [hl]
+      | map i k mv => simp only []; rw [hl]
+      | struct i chld => simp only []; rw [hl]
   | cons s rest ih =>
     intro n v hok h
     unfold inAliasClass at h
